@@ -49,6 +49,16 @@ def main(argv):
     except ModuleNotFoundError:
         print(f'no check for {pid}')
         return 2
+    if tier == 'thorough' and only is None and not os.environ.get('IREF_REPO'):
+        # detection self-test: the seeded changes kept for this property must be reported on a scratch copy of the current tree
+        from . import selftest
+        st = selftest.run_for(pid)
+        run.cov['selftest_seeds'] = len(st)
+        run.cov['selftest_caught'] = sum(1 for v in st.values() if v == 'caught')
+        for name, v in sorted(st.items()):
+            run.note(f'selftest {name}: {v}')
+            if v == 'MISSED':
+                print(f'SELFTEST-MISS property={pid} seed={name}: the check no longer reports this seeded change (machinery regression, not a verdict on /repo)')
     try:
         return mod.main(run)
     except Exception as e:   # fail closed, but say that it is the machinery
